@@ -2,6 +2,7 @@ import RedactVerif.Model.Writer
 import RedactVerif.Proofs.BufferInv
 import RedactVerif.Props.L2
 import RedactVerif.Props.FactsConsts
+import RedactVerif.Props.FactsSkelBuffer
 /-
 C01 — every produced string is a well-formed redactable string
 (and C03's "no envelope spans a line break": `WFL` = well-formed + line-safe).
